@@ -123,6 +123,10 @@ class G:
                     parts.append('\n' + r.choice(['', ' ', '   ', '\t']))
             if not parts[-1] == '' and not (isinstance(parts[-1], str) and parts[-1].endswith(('\n', ' ', '\t'))):
                 parts.append(' ')
+        if opener == '' and r.random() < 0.08:
+            # the `!` that marks a preserved comment may come from interpolation: the evaluated text decides
+            parts.insert(0, ('lit', r.choice(['"!"', 'unquote("!")', '"!" + ""']), '!'))
+            feats.append('interp-bang')
         # `/*/` would not be an opened-and-closed comment: never end the text with a slash right after the opener
         node = {'t': 'loud', 'opener': opener, 'parts': parts, 'tok': tok, 'site': site,
                 'kind': '+'.join([{'': 'plain', '!': 'preserved', '#': 'hash', '*': 'doc'}[opener]] + sorted(set(feats))),
